@@ -411,7 +411,62 @@ def c14():
     }
 
 
+def c05():
+    import suite_mr
+    return {
+        "props_file": "Props/C05.v",
+        "theorems": ["C05_partition_and_centroids", "C05_pairs_aligned", "C05_handed_over",
+                     "C05_any_directory", "C05_nonvacuous"],
+        "model_files": ["Model/Multiround.v", "Gen/GMr.v", "Proofs/GenTieMr.v"],
+        "suites": [suite_mr.suite_mr_files],
+        "search": suite_mr.search_mr("C05"),
+        "replay": suite_mr.replay_mr("C05"),
+        "level": "proof",
+        "rule": "random workflows (1..4 input files of unequal sizes, bin sizes, 0..3 midsection rounds, "
+                "refinement full/split/none, splitting on/off, all criteria, threshold changes of either sign, "
+                "packed/unpacked input, feature counts, centroids on/off, cleanup on/off) run through the real "
+                "run_multiround_bitbirch; the C05 statement is evaluated on the output directory directly "
+                "(partition, centroid alignment and exactness, every round buffer row = sums/count of its "
+                "member list) and the whole directory (every file, every row) is compared with "
+                "Model/Multiround.v; non-trivial = distinct case with >= 2 input files",
+        "trusted": COMMON_TRUST + ["translator tie for file names/globs/batching: Gen/GMr.v + Proofs/GenTieMr.v",
+                                   "np.save/np.load and pickle round trips (read back by the harness)"],
+        "assumptions": ["nf < 2^52, N < 2^64, branching factor >= 2, bin size >= 1 (the CLI/API enforce or default these)",
+                        "fexp is a universally quantified parameter"],
+    }
+
+
+def c06():
+    import suite_mr
+    return {
+        "props_file": "Props/C06.v",
+        "theorems": ["C06_sched_independent", "C06_live_reads", "C06_initial_round_interleave",
+                     "C06_merging_round_interleave", "C06_initial_writes_disjoint",
+                     "C06_merging_writes_disjoint", "C06_round_names_NoDup", "C06_nonvacuous"],
+        "model_files": ["Model/Multiround.v", "Gen/GMr.v", "Proofs/GenTieMr.v"],
+        "suites": [suite_mr.suite_sched, suite_mr.suite_mr_files],
+        "search": suite_mr.search_mr("C06"),
+        "replay": suite_mr.replay_mr("C06"),
+        "level": "proof",
+        "rule": "sched: for random workflows with >= 3 input files the real run_multiround_bitbirch runs with "
+                "an in-process pool stand-in that executes the tasks of every round in reversed / rotated / "
+                "random order, and with real multiprocessing pools (fork and forkserver, 2..16 processes); "
+                "whole output directories (all round files, cleanup off) are compared with the serial run and "
+                "the (round, label, dtype) keys of every _save_bufs_and_mol_idxs call are checked for "
+                "collisions; multiround-files ties the serial run to Model/Multiround.v; non-trivial = each "
+                "(configuration, schedule) evaluated",
+        "trusted": COMMON_TRUST + ["pool.map returns only after all tasks of the round finished (barrier) and a "
+                                   "task communicates only through its files - assumptions of the model; OS "
+                                   "scheduling itself is sampled by the real-pool runs, not proved",
+                                   "translator tie for file names/globs/batching: Gen/GMr.v + Proofs/GenTieMr.v"],
+        "assumptions": ["perm: any function returning a permutation of the task list of each round",
+                        "fexp is a universally quantified parameter"],
+    }
+
+
 SPECS = {
+    "C06": c06,
+    "C05": c05,
     "C14": c14,
     "C01": c01,
     "C15": c15,
